@@ -405,19 +405,21 @@ def corpus_shapes(max_n: int):
     out = []
 
     def trees(lo, hi):
+        """(text, is_atom) for every binary tree over operands lo..hi-1; a composite left operand is emitted
+        both bare (left-associative reading) and parenthesised (same tree, different spelling)"""
         if hi - lo == 1:
-            yield "@%d" % lo
+            yield "@%d" % lo, True
             return
         for k in range(lo + 1, hi):
-            for l in trees(lo, k):
-                for r in trees(k, hi):
-                    rs = r if r.startswith("@") else "(" + r + ")"
-                    yield l + " | " + rs
-                    if not l.startswith("@"):
-                        yield "(" + l + ") | " + rs
+            for l, la in trees(lo, k):
+                for r, ra in trees(k, hi):
+                    rs = r if ra else "(" + r + ")"
+                    yield l + " | " + rs, False
+                    if not la:
+                        yield "(" + l + ") | " + rs, False
 
     for n in range(2, max_n + 1):
-        for t in trees(0, n):
+        for t, _ in trees(0, n):
             for none_at in [None] + list(range(n)):
                 s = t
                 for i in range(n):
